@@ -119,7 +119,7 @@ theorem createM_result (cfg : Cfg) (st : St) (hinv : Inv st) (s : Sel) (id : Id)
     through the child store with the shared fields and the child field given, both stores'
     queries return it, and the parent's indexes hold it — at any point of any admissible
     history. -/
-theorem create_through_child_exists_in_both (cfg : Cfg) (st : St) (hr : Reached cfg st)
+theorem create_through_child_exists_in_both (cfg : Cfg) (st : St) (hinv : Inv st)
     (s : Sel) (hs : s = .A1 ∨ s = .A2) (id : Id) (p : Payload) (st' : St)
     (hff : cfg.childCreateCapturesOld = true ∨ findingOp st.ents (.create s id p) = false)
     (h : createM cfg st s id p = .ok st') :
@@ -127,7 +127,7 @@ theorem create_through_child_exists_in_both (cfg : Cfg) (st : St) (hr : Reached 
     findById st' s id = some (p.name, canon p.roles, p.child) ∧
     id ∈ queryIds st' .A .tt ∧ id ∈ queryIds st' s .tt ∧ id ∈ iterateValidIds st' s .tt ∧
     mget st'.nameIdx p.name = some id ∧ (∀ r, r ∈ p.roles → (r, id) ∈ st'.rolesIdx) := by
-  obtain ⟨hinv', hents⟩ := createM_result cfg st (reached_inv hr) s id p st' hff h
+  obtain ⟨hinv', hents⟩ := createM_result cfg st hinv s id p st' hff h
   generalize hb : (mget st.ents id).getD Ent.empty = base at hents
   have hget : mget st'.ents id = some (persistChild (persistShared base p none) s p none) := by
     rw [hents]; simp
@@ -280,7 +280,7 @@ theorem update_either_route_same_events (st : St) (id : Id) (e : Ent) (hm : mget
     checker names replaced (visible through the parent store), every other entity untouched,
     and the parent's indexes again the exact image of the table (so the new name and roles are
     indexed and the old ones are not). -/
-theorem update_updates_shared_fields_and_indexes (cfg : Cfg) (st : St) (hr : Reached cfg st)
+theorem update_updates_shared_fields_and_indexes (_cfg : Cfg) (st : St) (hinv : Inv st)
     (s : Sel) (id : Id) (p : Payload) (chk : Option Checker) (st' : St)
     (h : updateM st s id p chk = .ok st') :
     Inv st' ∧
@@ -290,7 +290,6 @@ theorem update_updates_shared_fields_and_indexes (cfg : Cfg) (st : St) (hr : Rea
       (e.name ≠ (persistShared e p chk).name → mget st'.nameIdx e.name = none) ∧
       (∀ r, (r, id) ∈ st'.rolesIdx ↔ r ∈ (persistShared e p chk).roles) ∧
       (∀ j, j ≠ id → mget st'.ents j = mget st.ents j) := by
-  have hinv := reached_inv hr
   have href := updateM_refines st hinv s id p chk
   cases hs : specUpdate st.ents s id p chk with
   | error err => simp only [hs] at href; rw [href] at h; cases h
@@ -373,12 +372,11 @@ theorem delete_either_route_removes_both (st : St) (s : Sel) (id : Id) :
 
 /-- … and leaves no trace of the id: no index entry of the parent store or of the child store
     refers to it any more, every other entity is untouched, and the invariant still holds. -/
-theorem delete_leaves_no_trace (cfg : Cfg) (st : St) (hr : Reached cfg st) (s : Sel) (id : Id) (st' : St)
+theorem delete_leaves_no_trace (_cfg : Cfg) (st : St) (hinv : Inv st) (s : Sel) (id : Id) (st' : St)
     (h : deleteM st s id = .ok st') :
     Inv st' ∧ mget st'.ents id = none ∧
     (∀ v, mget st'.nameIdx v ≠ some id) ∧ (∀ r, (r, id) ∉ st'.rolesIdx) ∧ (∀ c, mget st'.codeIdx c ≠ some id) ∧
     (∀ j, j ≠ id → mget st'.ents j = mget st.ents j) := by
-  have hinv := reached_inv hr
   have href := deleteM_refines st hinv s id
   unfold specDelete at href
   cases hm : mget st.ents id with
@@ -511,7 +509,7 @@ theorem child_data_changes_only_by_create_delete (cfg : Cfg) (st st' : St) (op :
 /-- a `Create` through a child store with a name that another entity — plain-parent or child —
     already holds is refused as a duplicate, exactly as through the parent store; so is an
     `Update`/patch through a child store that changes the name to a taken one -/
-theorem uniqueness_enforced_through_child (cfg : Cfg) (st : St) (hr : Reached cfg st)
+theorem uniqueness_enforced_through_child (cfg : Cfg) (st : St) (hinv : Inv st)
     (s : Sel) (id other : Id) (eo : Ent) (p : Payload)
     (hne : other ≠ id) (ho : mget st.ents other = some eo) (hname : eo.name = p.name) :
     (id ≠ 0 → isEntityPresent st s id = false →
@@ -519,7 +517,6 @@ theorem uniqueness_enforced_through_child (cfg : Cfg) (st : St) (hr : Reached cf
       createM cfg st s id p = .error .dupName) ∧
     (∀ e chk, id ≠ 0 → mget st.ents id = some e → e.hasChild s = true → proceed chk (·.name) = true →
       e.name ≠ p.name → updateM st s id p chk = .error .dupName) := by
-  have hinv := reached_inv hr
   have hp0 : p.name ≠ 0 := hname ▸ hinv.name_ne other eo ho
   have hother : otherHas st.ents id (fun e => e.name == p.name) = true :=
     (otherHas_iff _ _ _).2 ⟨other, eo, hne, ho, by simp [hname]⟩
